@@ -261,6 +261,33 @@ def generate(ctx):
         yield 'purity', {'grid': sp, 'seed': int(rng.integers(0, 2 ** 31))}
     yield 'deriv_axes', {'seed': int(rng.integers(0, 2 ** 31)), 'shapes': [[5, 4, 7], [4, 6, 3]] if quick else [[5, 4, 7], [4, 6, 3], [7, 2, 5], [2, 7, 6], [1, 2, 3]]}
     yield 'constructors', {'seed': int(rng.integers(0, 2 ** 31))}
+    # fourth-wave triggers
+    #  B: radii 2^-30 .. 2^30 and the Earth radius for EVERY operator, non-dyadic data (exact model + numpy reference)
+    radii = ['1/1073741824', '1073741824', '6371220', '6370000'] if quick else \
+            ['1/1073741824', '1/4096', '7/3221225472', '4096', '1073741824', '2505397589', '6371220', '6370000', '1/1000']
+    for k, r_ in enumerate(radii):
+        for sp in ([spec('ref', 3, 5, 10, 7, r_), spec('fast4', 3, 5, 10, 7, r_)] if (not quick or k % 2 == 0) else [spec('fast4', 3, 5, 10, 7, r_)]):
+            ctx.count('radius=%s' % r_)
+            yield 'radii', {'grid': sp, 'seed': int(rng.integers(0, 2 ** 31)), 'nodal': 1 if (not quick or k in (0, 2)) else 0}
+    #  D: jit / vmap / eval_shape / jvp / vjp of every operator as a linear map
+    for sp in [spec('ref', 3, 5, 10, 7, '7/3'), spec('fast4', 3, 4, 10, 6, '6371220')]:
+        yield 'transforms', {'grid': sp, 'seed': int(rng.integers(0, 2 ** 31)), 'nodal': 1}
+    #  C: default-option Fast grid with 128 < M <= 256 (stacked Fourier transforms by default): numpy reference, analytic
+    #     derivatives of selected basis vectors, vector identities and round trip; tall / wide grids beyond 256/512/1030 nodes
+    for (M_, L_, I_, J_) in ([(130, 131, 264, 134)] if quick else [(130, 131, 264, 134), (200, 201, 404, 204), (256, 257, 516, 260)]):
+        sp = spec('fastdef', M_, L_, I_, J_, '7/3')
+        sel = [[0, 0], [0, 1], [0, L_ - 2], [0, L_ - 1], [2, 1], [3, L_ - 2], [2 * 64, 64], [2 * 64 + 1, L_ - 3], [2 * 129, 129], [2 * 129 + 1, L_ - 1],
+               [2 * (M_ - 1), M_ - 1], [2 * (M_ - 1) + 1, L_ - 1]]
+        yield 'big_default', {'grid': sp, 'seed': int(rng.integers(0, 2 ** 31))}
+        yield 'analytic', {'grid': sp, 'sel': sel}
+        yield 'vecid', {'grid': sp, 'seed': int(rng.integers(0, 2 ** 31))}
+    for sp in ([spec('ref', 3, 4, 8, 1030, '7/3'), spec('fast', 3, 4, 1030, 6, '1')] if quick else
+               [spec('ref', 3, 4, 8, 1030, '7/3'), spec('fast', 3, 4, 1030, 6, '1'), spec('fast4', 3, 4, 8, 520, '1'), spec('ref', 3, 4, 2050, 6, '7/3'),
+                spec('fast', 3, 4, 8, 2050, '7/3'), spec('ref', 3, 4, 8, 300, '1', 'equiangular')]):
+        ctx.count('nodes=%dx%d' % (sp['nlon'], sp['nlat']))
+        yield 'analytic', {'grid': sp}
+        yield 'vecid', {'grid': sp, 'seed': int(rng.integers(0, 2 ** 31))}
+        yield 'roundtrip_basis', {'grid': sp}
     for sp in mesh_specs(ctx.tier):
         ctx.count('mesh=%s' % (sp['mesh'],))
         yield 'sharded', {'grid': sp, 'seed': int(rng.integers(0, 2 ** 31)), 'levels': [3] if quick else [3, 1, 5, 8], 'all_ops': 0 if quick else 1}
@@ -557,6 +584,8 @@ def r_analytic(ctx, a):
     cos2 = 1 - mu ** 2
     gauss = a['grid'].get('spacing', 'gauss') == 'gauss'
     idx = [(i, l) for i in range(R) for l in range(C) if G_.mask[i, l]]
+    if a.get('sel') is not None:            # large grids: a selection of basis vectors (row, l)
+        idx = [(i, l) for (i, l) in (tuple(t) for t in a['sel']) if G_.mask[i, l]]
     X = np.zeros((len(idx), R, C))
     for t, (i, l) in enumerate(idx): X[t, i, l] = 1.0
     Xj = jnp.asarray(X)
@@ -1075,6 +1104,136 @@ def r_constructors(ctx, a):
                              np.stack(got.cos_lat_grad(x)), scale=float(np.abs(np.stack(got.cos_lat_grad(x))).max()) + 1e-300)
 
 
+def r_radii(ctx, a):
+    """Every operator at radii 2^-30 .. 2^30 and the Earth radius, NON-dyadic data: against the exact model and the numpy
+    reference, always relative to the size of the exact result (no absolute epsilon survives this)."""
+    jnp, sh, fourier, jnu = J()
+    G_ = grid(a['grid']); g = G_.g; R, C, L = G_.R, G_.C, G_.L
+    rng = np.random.Generator(np.random.PCG64(a['seed']))
+    x = rng.integers(-21, 22, size=(R, C)).astype(np.float64) / 7.0
+    y = rng.integers(-21, 22, size=(R, C)).astype(np.float64) / 11.0
+    ops = ops_table(G_)
+    for name, (cmd, ar, fn) in ops.items():
+        for c in ((True, False) if cmd in (16, 20) else (True,)):
+            cmp(ctx, '%s clip=%s radius=%s (non-dyadic data)' % (name, c, a['grid']['r']), np.asarray(fn(jnp.asarray(x), jnp.asarray(y), c)),
+                G_.call(ctx, cmd, x, y, clip=c))
+    against_numpy(ctx, G_, x, y, ' radius=%s' % a['grid']['r'])
+    zm = x.copy(); zm[:, 0] = 0; zm[:, L:] = 0
+    ctx.oracle_close('inverse_laplacian(laplacian(x)) = x on zero-mean fields, radius=%s' % a['grid']['r'],
+                     np.asarray(g.inverse_laplacian(g.laplacian(jnp.asarray(zm)))), zm, scale=float(np.abs(zm).max()) + 1e-300)
+    il = np.asarray(g.inverse_laplacian(jnp.asarray(x)))
+    ctx.oracle('inverse_laplacian is non-zero at every 1 <= l < L where the input is non-zero, radius=%s' % a['grid']['r'],
+               bool(np.all((il[:, 1:L] != 0) == (x[:, 1:L] != 0))), None)
+    if a.get('nodal') and _resolves(G_):
+        vor = _rand(G_, a['seed'] + 2, 1, deg=L - 3, zero_mean=True) / 7.0; div = _rand(G_, a['seed'] + 3, 1, deg=L - 3, zero_mean=True) / 7.0
+        u, v = sh.vor_div_to_uv_nodal(g, jnp.asarray(vor), jnp.asarray(div))
+        cu, cv = NP(G_).getvec(vor, div)
+        want = np.stack([np.asarray(g.to_nodal(jnp.asarray(cu))), np.asarray(g.to_nodal(jnp.asarray(cv)))]) / G_.own_cos()
+        ctx.oracle_close('vor_div_to_uv_nodal = to_nodal(numpy get_cos_lat_vector)/cos, radius=%s' % a['grid']['r'],
+                         np.stack([np.asarray(u), np.asarray(v)]), want, scale=float(np.abs(want).max()) + 1e-300)
+        v2, d2 = sh.uv_nodal_to_vor_div_modal(g, u, v)
+        ctx.oracle_close('wind round trip (degree <= L-3), radius=%s' % a['grid']['r'], np.stack([np.asarray(v2), np.asarray(d2)]),
+                         np.stack([vor, div]), scale=float(max(np.abs(vor).max(), np.abs(div).max())) * L + 1e-300)
+
+
+def r_transforms(ctx, a):
+    """Every operator under jax.jit (whole call and a piece), jax.vmap over a leading axis, jax.eval_shape; as linear maps:
+    jvp tangent = operator(tangent), vjp finite and adjoint-consistent (<ct, A t> = <A^T ct, t>); laplacian and
+    inverse_laplacian are self-adjoint (diagonal), d_dlon is skew-adjoint."""
+    import jax
+    jnp, sh, fourier, jnu = J()
+    G_ = grid(a['grid']); g = G_.g; R, C, L = G_.R, G_.C, G_.L
+    rng = np.random.Generator(np.random.PCG64(a['seed']))
+    def rnd(*lead): return rng.integers(-8, 9, size=tuple(lead) + (R, C)).astype(np.float64)
+    x, y, tx, ty = rnd(), rnd(), rnd() / 3.0, rnd() / 3.0
+    x[:, 0] = 0; x[1, :] = 0            # zeros in the input, also where eigenvalues vanish
+    ops = ops_table(G_)
+    ref = NP(G_).table()
+    as_arr = lambda o: jnp.stack(o) if isinstance(o, (tuple, list)) else o
+    for name, (cmd, ar, fn0) in ops.items():
+        for c in ((True, False) if cmd in (16, 18, 19, 20) else (True,)):
+            fn = (lambda fn0, c: (lambda u, v: as_arr(fn0(u, v, c))))(fn0, c)
+            want = ref[name](x, y, c); sc = float(np.abs(want).max()) + 1e-300
+            eager = np.asarray(fn(jnp.asarray(x), jnp.asarray(y)))
+            tag = '%s clip=%s' % (name, c)
+            ctx.oracle_close(tag + ': jax.jit(operator) = documented operator', np.asarray(jax.jit(fn)(jnp.asarray(x), jnp.asarray(y))), want, scale=sc)
+            es = jax.eval_shape(fn, jax.ShapeDtypeStruct((R, C), jnp.float64), jax.ShapeDtypeStruct((R, C), jnp.float64))
+            ctx.exact(tag + ': jax.eval_shape agrees with the computed result', [list(es.shape), str(es.dtype)], [list(eager.shape), str(eager.dtype)])
+            xb, yb = rnd(3), rnd(3)
+            vm = np.asarray(jax.vmap(fn)(jnp.asarray(xb), jnp.asarray(yb)))
+            wantb = np.stack([ref[name](xb[k], yb[k], c) for k in range(3)])
+            ctx.oracle_close(tag + ': jax.vmap over a leading axis = documented operator per slice', vm, wantb, scale=float(np.abs(wantb).max()) + 1e-300)
+            # linear map: jvp
+            prim, tang = jax.jvp(fn, (jnp.asarray(x), jnp.asarray(y)), (jnp.asarray(tx), jnp.asarray(ty)))
+            wt = ref[name](tx, ty, c)
+            ctx.oracle_close(tag + ': jvp primal = operator(input)', np.asarray(prim), want, scale=sc)
+            ctx.oracle_close(tag + ': jvp tangent = operator(tangent) (linear map)', np.asarray(tang), wt, scale=float(np.abs(wt).max()) + 1e-300)
+            # vjp: finite, adjoint-consistent
+            ct = rng.integers(-8, 9, size=eager.shape).astype(np.float64)
+            _, pull = jax.vjp(fn, jnp.asarray(x), jnp.asarray(y))
+            gx, gy = (np.asarray(t) for t in pull(jnp.asarray(ct)))
+            ctx.oracle(tag + ': vjp (reverse mode) is finite', bool(np.all(np.isfinite(gx)) and np.all(np.isfinite(gy))),
+                       {'nan_or_inf_entries': int((~np.isfinite(gx)).sum() + (~np.isfinite(gy)).sum())})
+            lhs = float(np.sum(ct * wt)); rhs = float(np.sum(np.nan_to_num(gx) * tx) + np.sum(np.nan_to_num(gy) * ty))
+            ctx.oracle_close(tag + ': <ct, A t> = <A^T ct, t> (vjp is the adjoint of the documented operator)', [lhs], [rhs],
+                             scale=float(np.abs(ct).sum() * max(np.abs(wt).max(), 1e-300)))
+            if name in ('laplacian', 'inverse_laplacian'):
+                ctx.oracle_close(tag + ': self-adjoint (diagonal): vjp(ct) = operator(ct)', gx, ref[name](ct, ct, c),
+                                 scale=float(np.abs(ref[name](ct, ct, c)).max()) + 1e-300)
+            if name == 'd_dlon':
+                ctx.oracle_close(tag + ': skew-adjoint: vjp(ct) = -d_dlon(ct)', gx, -ref[name](ct, ct, c),
+                                 scale=float(np.abs(ref[name](ct, ct, c)).max()) + 1e-300)
+    # pieces under jit: clip_wavenumbers with n static, the fourier derivative and shift called inside jit
+    for n in (1, 2):
+        out = np.asarray(jax.jit(lambda u: g.clip_wavenumbers(u, n))(jnp.asarray(y)))
+        ctx.oracle_close('jax.jit(clip_wavenumbers n=%d) = documented operator' % n, out, NP(G_).clip(y, True, n), scale=float(np.abs(y).max()))
+    out = np.asarray(jax.jit(lambda u: jnu.shift(u, -1, axis=-1) + jnu.shift(u, 1, axis=-2))(jnp.asarray(y)))
+    ctx.oracle_close('jax.jit(shift) = zero-padded shift', out, NP._sh(y, -1, -1) + NP._sh(y, 1, -2), scale=float(np.abs(y).max()) * 2)
+    # the library's jitted nodal wrappers as linear maps (reverse mode finite, adjoint-consistent)
+    if a.get('nodal') and _resolves(G_):
+        f = lambda vor, div: jnp.stack(sh.vor_div_to_uv_nodal(g, vor, div))
+        vor, div = rnd(), rnd(); tv, td = rnd() / 3.0, rnd() / 3.0
+        prim, tang = jax.jvp(f, (jnp.asarray(vor), jnp.asarray(div)), (jnp.asarray(tv), jnp.asarray(td)))
+        wt = np.asarray(f(jnp.asarray(tv), jnp.asarray(td)))
+        ctx.oracle_close('vor_div_to_uv_nodal: jvp tangent = function(tangent)', np.asarray(tang), wt, scale=float(np.abs(wt).max()) + 1e-300)
+        ct = rng.integers(-8, 9, size=wt.shape).astype(np.float64)
+        _, pull = jax.vjp(f, jnp.asarray(vor), jnp.asarray(div))
+        gv, gd = (np.asarray(t) for t in pull(jnp.asarray(ct)))
+        ctx.oracle('vor_div_to_uv_nodal: vjp is finite', bool(np.all(np.isfinite(gv)) and np.all(np.isfinite(gd))), None)
+        ctx.oracle_close('vor_div_to_uv_nodal: <ct, A t> = <A^T ct, t>', [float(np.sum(ct * wt))],
+                         [float(np.sum(np.nan_to_num(gv) * tv) + np.sum(np.nan_to_num(gd) * td))], scale=float(np.abs(ct).sum() * np.abs(wt).max()) + 1e-300)
+        h = lambda u, v: jnp.stack(sh.uv_nodal_to_vor_div_modal(g, u, v))
+        un = rng.integers(-8, 9, size=g.nodal_shape).astype(np.float64); vn = rng.integers(-8, 9, size=g.nodal_shape).astype(np.float64)
+        tu = rng.integers(-8, 9, size=g.nodal_shape).astype(np.float64) / 3.0
+        prim, tang = jax.jvp(h, (jnp.asarray(un), jnp.asarray(vn)), (jnp.asarray(tu), jnp.asarray(un)))
+        wt = np.asarray(h(jnp.asarray(tu), jnp.asarray(un)))
+        ctx.oracle_close('uv_nodal_to_vor_div_modal: jvp tangent = function(tangent)', np.asarray(tang), wt, scale=float(np.abs(wt).max()) + 1e-300)
+        ct = rng.integers(-8, 9, size=wt.shape).astype(np.float64)
+        _, pull = jax.vjp(h, jnp.asarray(un), jnp.asarray(vn))
+        gu, gv = (np.asarray(t) for t in pull(jnp.asarray(ct)))
+        ctx.oracle('uv_nodal_to_vor_div_modal: vjp is finite', bool(np.all(np.isfinite(gu)) and np.all(np.isfinite(gv))), None)
+        ctx.oracle_close('uv_nodal_to_vor_div_modal: <ct, A t> = <A^T ct, t>', [float(np.sum(ct * wt))],
+                         [float(np.sum(np.nan_to_num(gu) * tu) + np.sum(np.nan_to_num(gv) * un))], scale=float(np.abs(ct).sum() * np.abs(wt).max()) + 1e-300)
+
+
+def r_big_default(ctx, a):
+    """A default-option FastSphericalHarmonics grid in the range where stacked Fourier transforms are the DEFAULT
+    (128 < M <= 256).  The exact model is quadratic in the array size here, so every operator is decided by the
+    independent numpy reference of this plugin (closed-form weights), not by the Q model."""
+    jnp, sh, fourier, jnu = J()
+    G_ = grid(a['grid']); g = G_.g; R, C, L, M = G_.R, G_.C, G_.L, G_.M
+    s = g.spherical_harmonics
+    ctx.exact('default options of FastSphericalHarmonics for 128 < M <= 256: stacked Fourier transforms, base multiple 1, no reversed einsum',
+              [bool(s.stacked_fourier_transforms), s.base_shape_multiple, bool(s.reverse_einsum_arg_order), [R, C]], [True, 1, False, [2 * M, L]])
+    ctx.oracle('modal_axes / mask follow the documented layout (large default grid)',
+               bool(np.array_equal(G_.m, G_.own_m) and np.array_equal(G_.l, G_.own_l) and np.array_equal(G_.mask, G_.own_mask)), None)
+    ctx.oracle_close('recurrence weight tables = sqrt of the closed form (large default grid)', np.stack([G_.a, G_.b]),
+                     np.stack([G_.own_a, G_.own_b]), scale=1.0, tol_rel=2.0 ** -48)
+    for masked in (0, 1):
+        x = _rand(G_, a['seed'] + masked, masked); y = _rand(G_, a['seed'] + 7 + masked, masked)
+        against_numpy(ctx, G_, x / 7.0, y / 3.0, ' (M=%d default Fast grid)' % M)
+
+
 def r_wrappers_fine(ctx, a):
     """vor/div -> wind -> vor/div on grids with many nodes and a tiny truncation (oracle on the implementation)."""
     jnp, sh, fourier, jnu = J()
@@ -1109,4 +1268,5 @@ def r_jit_static(ctx, a):
 RUNNERS = {'wrappers_fine': r_wrappers_fine, 'jit_static': r_jit_static, 'shift': r_shift, 'shift2d': r_shift2d, 'clip_reject': r_clip_reject, 'fourier_deriv': r_fourier_deriv,
            'tables': r_tables, 'onehot': r_onehot, 'random_ops': r_random_ops, 'analytic': r_analytic,
            'sec2_hyp': r_sec2_hyp, 'vecid': r_vecid, 'roundtrip_basis': r_roundtrip_basis, 'spectral_id': r_spectral_id,
-           'forms': r_forms, 'purity': r_purity, 'deriv_axes': r_deriv_axes, 'sharded': r_sharded, 'constructors': r_constructors}
+           'forms': r_forms, 'purity': r_purity, 'deriv_axes': r_deriv_axes, 'sharded': r_sharded, 'constructors': r_constructors,
+           'radii': r_radii, 'transforms': r_transforms, 'big_default': r_big_default}
